@@ -2,6 +2,7 @@ package logqlengine
 
 import (
 	"cmp"
+	"encoding/binary"
 	"maps"
 	"regexp"
 	"slices"
@@ -82,11 +83,20 @@ func (a *aggregatedLabels) Without(labels ...logql.Label) logqlmetric.Aggregated
 func (a *aggregatedLabels) Key() logqlmetric.GroupingKey {
 	h := xxhash.New()
 	empty := true
+	var lenBuf [binary.MaxVarintLen64]byte
+	writeLen := func(s string) {
+		// Log lines are not necessarily valid UTF-8, so value may contain the separator:
+		// length prefix keeps {a="x\xffn\xffy"} and {a="x", n="y"} apart.
+		n := binary.PutUvarint(lenBuf[:], uint64(len(s)))
+		_, _ = h.Write(lenBuf[:n])
+	}
 	a.forEach(func(k, v string) {
 		empty = false
 		// Separate name and value, so {a="bc"} and {ab="c"} have different keys.
+		writeLen(k)
 		_, _ = h.WriteString(k)
 		_, _ = h.Write(keySeparator)
+		writeLen(v)
 		_, _ = h.WriteString(v)
 		_, _ = h.Write(keySeparator)
 	})
